@@ -23,13 +23,19 @@ def _sha(text):
     return hashlib.sha256(text.encode('utf-8', 'surrogatepass')).hexdigest()[:16]
 
 
-def _fork(fn):
-    frames, status = core.fork_stream(lambda emit: emit(fn()), TIMEOUT)
-    if status == 'timeout':
-        return ('hang', 'no result within %ss' % TIMEOUT)
-    if status != 'ok' or len(frames) != 1:
-        raise core.HarnessError('channel child failed: %s' % status)
-    return frames[0]
+def _fork(fn, size=0):
+    """Evaluate one channel in a fork of this pristine process. The watchdog scales with the text size (a megabyte pushed
+    through a device that serves one byte per call is slow, not stuck). A timeout is retried once with four times the
+    budget; a second timeout is a harness error (exit 2) - a watchdog never turns into a verdict."""
+    budget = TIMEOUT + size / 2000.0
+    for attempt in (1, 4):
+        frames, status = core.fork_stream(lambda emit: emit(fn()), budget * attempt)
+        if status == 'timeout':
+            continue
+        if status != 'ok' or len(frames) != 1:
+            raise core.HarnessError('channel child failed: %s' % status)
+        return frames[0]
+    raise core.HarnessError('channel evaluation gave no result within %ds (text size %d)' % (budget * 4, size))
 
 
 class Judge:
@@ -46,7 +52,7 @@ class Judge:
         if key not in self.refs:
             if len(self.refs) > 20000:
                 self.refs.clear()
-            self.refs[key] = tuple(_fork(lambda: CW.lib_channel('str', text, rid)))
+            self.refs[key] = tuple(_fork(lambda: CW.lib_channel('str', text, rid), len(text)))
         return self.refs[key]
 
     def check_seam(self):
@@ -64,6 +70,10 @@ class Judge:
     def run(self, scn):
         """Returns result dict with comparisons count, fault stats and the first violation (or None)."""
         rid, texts, names, knobs = scn['R'], scn['texts'], scn['names'], scn['knobs']
+        if sum(len(t) for t in texts) > 200000:
+            # keep the number of device calls bounded for very large texts (short reads/writes still happen, 64 bytes at a time)
+            knobs = dict(knobs, read_chunk=max(knobs['read_chunk'], 64), write_chunk=max(knobs['write_chunk'], 64),
+                         bufsize=max(knobs['bufsize'], 64), out_bufsize=max(knobs['out_bufsize'], 64))
         # one path, one content: when a path is named twice the file holds the text given for its last occurrence
         by_name = {}
         for n, t in zip(names, texts):
@@ -105,10 +115,10 @@ class Judge:
             for ch in CW.LIB_CHANNELS:
                 if only and ch != only:
                     continue
-                out = _fork(lambda: CW.lib_channel(ch, t0, rid, knobs, scn['seed']))
+                out = _fork(lambda: CW.lib_channel(ch, t0, rid, knobs, scn['seed']), len(t0))
                 cmp(ch, t0, refs[0], out)
             if t0 and not t0.endswith('\n') and (not only or only == 'str_nl'):
-                out = _fork(lambda: CW.lib_channel('str_nl', t0, rid))
+                out = _fork(lambda: CW.lib_channel('str_nl', t0, rid), len(t0))
                 cmp('str_nl', t0, refs[0], out)
         # command-line tool
         if only and not only.startswith('cli'):
@@ -136,7 +146,7 @@ class Judge:
             cands = [CW.dotted(r) for r in W.BUNDLED_IDS if r != rid] + ['1', 'true', 'mistletoe.HtmlRenderer']
             cscn['env'] = {key: cands[scn['seed'] // 7 % len(cands)]}
             res['reach'].append('env_var_consulted_by_tool_set')
-        out = _fork(lambda: CW.cli_channel(cscn))
+        out = _fork(lambda: CW.cli_channel(cscn), sum(len(t) for t in texts))
         if isinstance(out, dict):
             self.env_keys.update(out.get('env_missed') or [])
         if not isinstance(out, dict):
